@@ -28,6 +28,9 @@ def step (line : String) : String :=
   | "c11i" :: a => Drv.C11.opInsert a
   | "c11w" :: a => Drv.C11.opWall a
   | "c11p" :: a => Drv.C11.opMask a
+  | "c12m" :: a => Drv.C12.opMask a
+  | "c12v" :: a => Drv.C12.opVerdict a
+  | "c12c" :: a => Drv.C12.opCli a
   | "c05hy" :: a => Drv.C05.opHy a
   | "c05pd" :: a => Drv.C05.opPD a
   | "c06tz" :: a => Drv.C05.opTZ a
